@@ -283,7 +283,7 @@ package webserver
 //@
 //@ func tokensHandler
 //@   safe
-//@   props C17 C12
+//@   props C17 C16 C12
 //@   requires nonnil: w != nil && r != nil && r.URL != nil
 //@   requires unlocked: !held(group.groups.mu) && !held(token.tokens.mu)
 //@   modifies *
@@ -302,6 +302,14 @@ package webserver
 //@   -- C17: a token of another group is neither shown nor deleted
 //@   assert at call sendJSON#2 own-group: old$1.Group == g
 //@   assert at call Delete own-group: old$3.Group == g && arg0 == t
+//@   -- C16: an edit or a delete through the API is conditioned on the request's If-Match / If-None-Match headers: they are compared with
+//@   -- the tag that was read together with the token, the operation goes ahead only if the comparison passed, and it carries that same
+//@   -- tag into the store (which compares it again inside its critical section)
+//@   assert at call checkPreconditions#2 tag-read: arg_etag == second(callresult("Get", 2)) || arg_etag == ""
+//@   assert at call Update#2 conditional: !callresult("checkPreconditions", 2)
+//@   assert at call Update#2 same-tag: arg_etag == second(callresult("Get", 2)) || arg_etag == ""
+//@   assert at call checkPreconditions#3 tag-read: arg_etag == second(callresult("Get", 3))
+//@   assert at call Delete#1 conditional: !callresult("checkPreconditions", 3) && arg_etag == second(callresult("Get", 3))
 //@
 //@ -- ------------------------------------------------------------------ static files and recordings (C19: confinement by os.Root)
 //@ -- Files named by a request are opened ONLY through the confining os.Root of their directory: the functions below make no
